@@ -186,6 +186,23 @@ def pwd_doubles_quotes():
     return False
 
 
+def make_directory_stops_at_dotdot(tree):
+    """the test of the `while` loop of `Client.make_directory`: True when it also stops at a `..` component
+    (`path.name != '..'`), False for the plain `path.name and not await self.exists(path)`; any other shape raises"""
+    for n in ast.walk(tree):
+        if isinstance(n, ast.AsyncFunctionDef) and n.name == "make_directory":
+            loops = [x for x in ast.walk(n) if isinstance(x, ast.While)]
+            if len(loops) != 1:
+                break
+            t = ast.unparse(loops[0].test)
+            if t == "path.name and (not await self.exists(path))":
+                return False
+            if t == "path.name and path.name != '..' and (not await self.exists(path))":
+                return True
+            raise RuntimeError("Client.make_directory: unrecognised loop test %r" % t)
+    raise RuntimeError("Client.make_directory: loop not found")
+
+
 def gen_client():
     tree = _client_ast()
     rel = upload_relative(tree)
@@ -228,6 +245,9 @@ def gen_client():
         "",
         "/-- `Client.list.__anext__` reads the entry's type with a subscript (`info[\"type\"]`: KeyError when absent) -/",
         "def listTypeLookupRaises : Bool := %s" % ("true" if list_type_lookup_raises(tree) else "false"),
+        "",
+        "/-- `Client.make_directory` never asks for, nor tries to create, a `..` component (its loop stops there) -/",
+        "def makeDirectoryStopsAtDotDot : Bool := %s" % ("true" if make_directory_stops_at_dotdot(tree) else "false"),
         "",
         "/-- `Client.upload`: the `relative = <expr>` assignments of the loop over a directory's children,",
         "    as (guarding test, expression) in source order; \"\" = unconditional -/",
